@@ -23,7 +23,7 @@ RULE = ('tier 1: for each program (3-8 operations covering every mutating method
         'random instants into a 2-thread child. evaluations = kill runs judged; distinct_nontrivial = distinct '
         '(program, kill gate) pairs + distinct (syscall, n) kills')
 DISTINCT = ('kill_points', 'syscall_kills', 'random_kills')
-REQUIRED = ('kills_beside_a_waiting_writer', 'gate_kills_judged', 'kills_during_open', 'kills_during_first_write', 'programs_wal', 'programs_rollback_journal', 'blocked_commit_runs_with_failed_commit', 'size_evictions_seen_in_dry_runs', 'programs_fully_enumerated', 'kills_inside_block', 'kills_at_file_ops',
+REQUIRED = ('calls_failed_with_sqlite_having_rolled_back', 'kills_inside_blocks_after_a_sqlite_side_rollback', 'kills_beside_a_waiting_writer', 'gate_kills_judged', 'kills_during_open', 'kills_during_first_write', 'programs_wal', 'programs_rollback_journal', 'blocked_commit_runs_with_failed_commit', 'size_evictions_seen_in_dry_runs', 'programs_fully_enumerated', 'kills_inside_block', 'kills_at_file_ops',
             'kills_at_sql_gates', 'debris_seen_unknown_files_or_dirs', 'syscall_kills_judged', 'random_kills_judged')
 ASSUMPTIONS = ('SIGKILL is process death, not power loss (page cache survives); durability against power failure is not '
                'examined', 'sequential semantics of each operation are taken from a dry run of the same program '
@@ -109,6 +109,11 @@ def programs():
     P.append(('deque', 2, [('append', S('d0', True)), ('append', S('d1', True))],
               [('block', [('append', S('d2', True)), ('appendleft', S('d3', True)), ('pop',)]),
                ('append', S('d4', True)), ('appendleft', B('d5', True))]))
+    # a call fails with an error on which SQLite has rolled the transaction back by itself (the library's own ROLLBACK
+    # then fails too); the same handle goes on and is killed inside later blocks: they must still be all-or-nothing
+    P.append(('cache', None, [('set', 'a', S('a0', True)), ('set', 'b', S('b0'))],
+              [('io_error', ('set', 'z', S('z0'))), ('block', [('set', 'a', S('a1', True)), ('set', 'c', S('c1', True)), ('delete', 'b')]),
+               ('io_error', ('incr', 'n', 1)), ('block', [('set', 'd', S('d1')), ('pop', 'a')]), ('set', 'e', S('e1', True))]))
     return P
 
 
@@ -295,6 +300,12 @@ def enumerate_program(dc, sc, res, prog_id, spec, label, stride=1, offset=0, jou
             commits[cur].append([tuple(x) if isinstance(x, list) else x for x in r['commit_state']])
         elif 'done' in r:
             states[r['done']] = [tuple(x) if isinstance(x, list) else x for x in r['state']]
+            if program[r['done']][0] == 'io_error':
+                if r.get('err') == 'OperationalError':
+                    res.count('calls_failed_with_sqlite_having_rolled_back')
+                else:
+                    res.inconclusive.append('%s: the injected SQLite-side rollback did not fail call %d (%r)' % (
+                        label, r['done'], r.get('err')))
     # the situations a program is about must really occur in its dry run (a size-eviction program that never evicts
     # proves nothing): count them, the counters are required
     if kind == 'cache' and any(op[0] == 'reset' and op[1] == 'size_limit' for op in program):
@@ -337,6 +348,8 @@ def enumerate_program(dc, sc, res, prog_id, spec, label, stride=1, offset=0, jou
         judge(dc, res, d, kind, maxlen, acceptable, label, wit)
         res.count('evaluations')
         res.count('gate_kills_judged')
+        if op[0] == 'block' and any(o[0] == 'io_error' for o in program[:j]):
+            res.count('kills_inside_blocks_after_a_sqlite_side_rollback')
         res.seen('kill_points', (prog_id, k))
         if op[0] == 'block':
             res.count('kills_inside_block')
